@@ -494,6 +494,38 @@ pub fn run(ctx: &Ctx, rep: &Report) {
                 }
             }
         }
+        // "... for every payload": every value of each 16-bit window of the 56-bit MV / MB field of the long formats
+        // (the Comm-B reader infers registers from the payload; what it infers must not touch the address)
+        {
+            let addrs: &[u32] = if thorough { &[0x4840d6, 0xffffff, 0x000001] } else { &[0x4840d6] };
+            let offs: Vec<usize> = if thorough { (32..=72).step_by(8).collect() } else { vec![32, 72] };
+            let bgs: [[u8; 7]; 3] = [[0; 7], [0xff; 7], [0x10, 0x00, 0x00, 0x00, 0x00, 0x00, 0x00]];
+            for &df in &[16u8, 20, 21] {
+                for &a in addrs {
+                    for &off in &offs {
+                        for bg in &bgs {
+                            par_ranges(ctx.threads, 65536, 1 << 10, |lo, hi| {
+                                for v in lo..hi {
+                                    let mut f = vec![0u8; 14];
+                                    f[0] = df << 3;
+                                    f[2] = 0x0c;
+                                    f[3] = 0x90;
+                                    f[4..11].copy_from_slice(bg);
+                                    set_bits(&mut f, off, 16, v);
+                                    seal(&mut f, a);
+                                    if let Some((c, w)) = check_ap(&f, a, v % 64 == 0) {
+                                        rep.violation(&format!("{c}:payload"), w, json!({"kind":"ap","frame":hexs(&f),"addr":a}));
+                                    }
+                                }
+                                rep.eval(hi - lo);
+                                rep.nontriv(hi - lo);
+                            });
+                            total += 65536;
+                        }
+                    }
+                }
+            }
+        }
         rep.outcome("ap:address-recovered", total);
         rep.part("ap:address-recovery", total, json!({"dfs": dfs, "payloads": 3, "all_2^24_addresses": if thorough {"every DF × payload"} else {"DF4 payload 0; 16-bit windows elsewhere"}}));
     }
